@@ -937,20 +937,14 @@ class Curve(BaseCurve):
         self.knot_clean(tolerance=tolerance)
         if self.weights is None:
             return
-        # Try to reduce to spline
-        knotvector = tuple(self.knotvector)
+        # Reduce to spline when the weight function is constant: the rational
+        # basis functions are then the spline ones. (The squared error of a
+        # projection on the spline space, computed by a quadrature made for
+        # polynomials, is not reliable for rational integrands.)
         weights = tuple(self.weights)
-        ctrlpoints = tuple(self.ctrlpoints)
-        mattrans, materror = heavy.LeastSquare.func2func(
-            knotvector, weights, knotvector, [1] * self.npts
-        )
-        error = np.dot(np.moveaxis(ctrlpoints, 0, -1), np.dot(materror, ctrlpoints))
-        error = np.max(abs(error))
-        error = max(error, np.dot(weights, np.dot(materror, weights)))
-        if error < tolerance:
-            self.ctrlpoints = np.dot(mattrans, ctrlpoints)
+        spread = max(abs(weight - weights[0]) for weight in weights)
+        if spread <= tolerance * abs(weights[0]):
             self.weights = None
-            assert NotImplementedError  # Needs correction
             self.clean(tolerance)
 
     def split(self, nodes: Optional[Tuple[float]] = None) -> Tuple[Curve]:
